@@ -197,3 +197,17 @@ func init() {
 		panic(fmt.Sprint("asm self check"))
 	}
 }
+
+// Storer4: no calldata -> SSTORE(i,1) for i in 0..3; any calldata -> clear all
+// four (the refund of several clears exceeds the EIP-3529 cap of gasUsed/5).
+func Storer4() []byte {
+	a := New().Op(CALLDATASIZE, ISZERO).Jumpi("set")
+	for i := uint64(0); i < 4; i++ {
+		a.Push(0).Push(i).Op(SSTORE)
+	}
+	a.Op(STOP).Label("set")
+	for i := uint64(0); i < 4; i++ {
+		a.Push(1).Push(i).Op(SSTORE)
+	}
+	return a.Op(STOP).Bytes()
+}
